@@ -74,6 +74,14 @@ pub fn exec(c: &OCase, repair: bool) -> OResult {
             let ratio = get_diff_ratio(&ops, c.oe - c.os, c.ne - c.ns);
             (ops, ratio)
         }
+        "hetero" => {
+            // old and new of different element types (equal values hash differently across them)
+            let old: Vec<rec::OldT> = c.old.iter().map(|v| rec::OldT(*v)).collect();
+            let new: Vec<rec::NewT> = c.new.iter().map(|v| rec::NewT(*v)).collect();
+            let ops = capture_diff_deadline::<[rec::OldT], [rec::NewT]>(c.alg, &old[..], c.os..c.oe, &new[..], c.ns..c.ne, deadline);
+            let ratio = get_diff_ratio(&ops, c.oe - c.os, c.ne - c.ns);
+            (ops, ratio)
+        }
         "slices_weakhash" | "slices_consthash" => {
             // items whose legal Hash collides for unequal values (same equalities as the u32 items)
             let ops = if c.entry == "slices_weakhash" {
@@ -239,6 +247,7 @@ pub fn from_json(v: &Value) -> OCase {
         "slices" => "slices",
         "slices_weakhash" => "slices_weakhash",
         "slices_consthash" => "slices_consthash",
+        "hetero" => "hetero",
         _ => "textdiff",
     };
     OCase {
@@ -427,6 +436,11 @@ pub fn drive_ops(a: &Args, out: &mut Out) {
                 let mut wh = whole.clone();
                 wh.entry = if i % 2 == 0 { "slices_weakhash" } else { "slices_consthash" };
                 emit_with_fuels(&wh, out, &mut rng, 0);
+            }
+            if i % 3 == 2 {
+                let mut ht = if i % 2 == 0 { whole.clone() } else { sub.clone() };
+                ht.entry = "hetero";
+                emit_with_fuels(&ht, out, &mut rng, 0);
             }
         }
     }
